@@ -30,7 +30,8 @@ def run(ctx):
                 "strbody: every literal string whose body has up to 5 (quick) / 6 bytes over CR, LF, backslash, parentheses, digits, letters; "
                 "spell: object sequences x hand-written legal spellings x legal separators, with the specification's own "
                 "round trip Lex(Join(..)) = objects checked by TLC; dsc: DSC layouts. Each text is wrapped in { } and "
-                "executed; the procedure's tokens and Interpreter.DSC are compared. TV: the library's String.PS/Name.PS "
+                "executed; the procedure's tokens and Interpreter.DSC are compared, the DSC comments also when the same text is handed "
+                "to one interpreter in several calls cut after line feeds. TV: the library's String.PS/Name.PS "
                 "output is lexed by the specification (TracePSWrite). distinct = texts that are legal or illegal token "
                 "sequences inside the quantifier (open/unbalanced ones are generated but not compared).")
     ctx.assumptions = ["outside the quantifier and not compared: //immediate names, ASCII85 overflow, reals beyond the float "
